@@ -112,11 +112,31 @@ class MocksEmitter:
 
     def _group_operations_by_tag(self, spec: IRSpec) -> dict[str, list[IROperation]]:
         """Group operations by their OpenAPI tag."""
-        operations_by_tag: dict[str, list[IROperation]] = defaultdict(list)
-
+        # Mirror EndpointsEmitter / ClientVisitor: an operation belongs to EVERY one of its tags, and tags that
+        # differ only in case or punctuation form one group named after the best-scoring spelling. Grouping by
+        # the raw first tag produced duplicate MockAPIClient arguments for 'pets'/'Pets' and left multi-tag
+        # operations out of the other tags' mocks.
+        ops_by_key: dict[str, list[IROperation]] = defaultdict(list)
+        candidates_by_key: dict[str, list[str]] = defaultdict(list)
         for operation in spec.operations:
-            tag = operation.tags[0] if operation.tags else "default"
-            operations_by_tag[tag].append(operation)
+            for tag in operation.tags or ["default"]:
+                key = NameSanitizer.normalize_tag_key(tag)
+                ops_by_key[key].append(operation)
+                candidates_by_key[key].append(tag)
+
+        def tag_score(t: str) -> tuple[bool, int, int, str]:
+            import re
+
+            is_pascal = bool(re.search(r"[a-z][A-Z]", t)) or bool(re.search(r"[A-Z]{2,}", t))
+            words = re.findall(r"[A-Z]?[a-z]+|[A-Z]+(?![a-z])|[0-9]+", t)
+            words += re.split(r"[_-]+", t)
+            word_count = len([w for w in words if w])
+            upper = sum(1 for c in t if c.isupper())
+            return (is_pascal, word_count, upper, t)
+
+        operations_by_tag: dict[str, list[IROperation]] = {}
+        for key, ops in ops_by_key.items():
+            operations_by_tag[max(candidates_by_key[key], key=tag_score)] = ops
 
         return operations_by_tag
 
